@@ -468,8 +468,14 @@ def r5(ctx):
         f = fn_of(ctx, modname, f"{cls}.set_quick_timer")
         calls = f.calls(sender)
         ok = False
+        snode = m.get_class(cls).methods.get(sender)
+        spar = [a_.arg for a_ in snode.args.args[1:]] if snode is not None else []
         for n, c in calls:
-            st = f.expand(c.args[1], n) if len(c.args) > 1 else None
+            # arguments by parameter, whether they are passed by position or by keyword
+            bound = {spar[i]: a_ for i, a_ in enumerate(c.args) if i < len(spar)}
+            bound.update({k.arg: k.value for k in c.keywords if k.arg})
+            a_type, a_state = (bound.get(spar[0]), bound.get(spar[1])) if len(spar) >= 2 else (None, None)
+            st = f.expand(a_state, n) if a_state is not None else None
             kw = {k.arg: norm_text(k.value) for k in st.keywords} if isinstance(st, ast.Call) else {}
-            ok = kw.get("disabled") == "False" and kw.get("hour") == "value.hour" and kw.get("minute") == "value.minute" and norm_text(c.args[0]) == f.params[1]
+            ok = kw.get("disabled") == "False" and kw.get("hour") == "value.hour" and kw.get("minute") == "value.minute" and a_type is not None and norm_text(a_type) == f.params[1]
         ctx.check(ok, R, f"{cls}.set_quick_timer:time", m, f.node, "a time value sets the named timer to (hour, minute), enabled", "different")
